@@ -93,6 +93,7 @@ class World:
         self.panic_at = None
         self.live_count = 0
         self.stats = defaultdict(int)
+        self.log_cum = defaultdict(list)     # filter -> [(acceptance index, cumulative bytes incl. it)]
         self.pause_reasons = defaultdict(set)
         self.free_ids = []          # ghost of the slab free list (LIFO)
         self.next_id = 0
@@ -153,6 +154,7 @@ class World:
         for f in self.filters_known:
             if topic_matches(topic, f):
                 self.log_bytes[f] += 4 + len(topic) + len(payload)
+                self.log_cum[f].append((n, self.log_bytes[f]))
 
     # ------------------------------------------------------------------ ops
     def run(self):
@@ -378,6 +380,7 @@ class World:
                 d = getattr(l, "calm_drain", None)
                 if d is not None and self.last_some < d and l.ended is None:
                     l.calm_points = getattr(l, "calm_points", []) + [i]
+                    l.calm_pairs = getattr(l, "calm_pairs", []) + [(d, i)]
 
     def undecidable_ack(self, i, l):
         """an ack that does not match what the client has SEEN: unsolicited only if nothing can
@@ -423,6 +426,7 @@ class World:
                 f.setdefault("topic_resolved", f["topic"])
                 if f["topic_resolved"] in (None, b""):
                     self.skips["empty-or-unresolved-topic-forward"] += 1   # not judged by the delivery clauses
+                    l.unresolved_fwd = getattr(l, "unresolved_fwd", 0) + 1
                 else:
                     l.fwd.append(f)
                 if f["qos"] > 0:
@@ -507,6 +511,8 @@ def quiescent_end(w):
     if w.panic_at is not None or len(ans) < len(ops):
         return False
     i = len(ops) - 1
+    while i >= 0 and ops[i] == "CONSUME" and ans[i] == "NONE 0":
+        i -= 1                      # trailing looks at the empty ready queue
     drained = set()
     while i >= 0 and ops[i].startswith("DRAIN"):
         if ans[i] != "[]":
@@ -588,6 +594,23 @@ def check_end(w):
     return w
 
 
+def still_retained(w, flt, n, nb):
+    """is the message with acceptance index n certainly still in the log of filter flt when nb
+    messages have been accepted?  (segcount-1) closed segments of >= segsize bytes each are always
+    kept; with a single segment only a log that never rolled over is safe"""
+    cum = w.log_cum.get(flt, [])
+    import bisect
+    j = bisect.bisect_left(cum, (nb, -1))          # entries with index < nb
+    total = cum[j - 1][1] if j > 0 else 0
+    if total < w.cfg["segsize"]:
+        return True                                 # never rolled over
+    if w.cfg["segcount"] < 2:
+        return False
+    k = bisect.bisect_left(cum, (n, -1))
+    before = cum[k - 1][1] if k > 0 else 0          # bytes before message n
+    return total - before <= (w.cfg["segcount"] - 1) * w.cfg["segsize"]
+
+
 def expected_for(w, l, path, qos, since, until=None):
     g, flt = strip_share(path)
     out = []
@@ -666,11 +689,62 @@ def check_delivery(w, q):
         for f in live:
             if f["retain"]:
                 w.viol(f["at"], "C15", "live forward flagged retained: link %d %r" % (l.k, f["payload"]))
+        has_shared = any(strip_share(p)[0] is not None for p in spans)
+        # ---- completeness at calm points (C01), for every link whatever became of it later: at a
+        # DRAIN d after which the router only found its queue empty, with nothing owed by the client
+        # (window empty, no Ready owed, nothing pushed), every message accepted before d that matches
+        # a non-shared subscription made on this connection and still in force at d has arrived
+        if not l.notes and not getattr(l, "unresolved_fwd", 0) and getattr(l, "foreign_end", None) is None:
+            acc_ops = [a[6] for a in w.accepted]
+            import bisect
+            done = False
+            for (d, i0) in getattr(l, "calm_pairs", []):
+                nb = bisect.bisect_left(acc_ops, d)
+                got_by = set((f["topic_resolved"], f["payload"]) for f in l.fwd if f["at"] <= d)
+                for (path, qos, since, _pi) in getattr(l, "new_subs", []):
+                    g_, flt = strip_share(path)
+                    if g_ is not None or since >= nb:
+                        continue
+                    untils = [at for (pp, at) in getattr(l, "unsubbed", []) if pp == path and at >= since]
+                    if untils and min(untils) <= nb:
+                        continue
+                    for (n, topic, payload, _r, _pub, _q, _i) in w.accepted[since:nb]:
+                        if payload != b"" and topic_matches(topic, flt) and (topic, payload) not in got_by:
+                            if not still_retained(w, flt, n, nb):
+                                w.skips["completeness-skipped-retention"] += 1
+                                continue
+                            w.viol(d, "C01", "link %d (%r) drained at op %d, owed nothing, the router idle since: (%r, %r), accepted before under its subscription %r, never arrived" % (
+                                l.k, l.name, d, topic, payload, path))
+                            done = True
+                            break
+                    if done:
+                        break
+                w.stats["c01_calm_points_checked"] += 1
+                if done:
+                    break
         if unreliable:
             w.skips["delivery-exactness-skipped-link"] += 1
+            # persistent / resumed links: redeliveries make the upper bounds and the order clause
+            # undecidable, but the LOWER bound at quiescence stands for every subscription made on
+            # this very connection that is still in force: whatever was accepted after it took
+            # effect must have arrived at least once
+            if not l.notes and q and l.ended is None and not has_shared:
+                got_any = set((f["topic_resolved"], f["payload"]) for f in l.fwd if f["payload"] != b"" and f["topic_resolved"] is not None)
+                for (path, qos, since, _pi) in getattr(l, "new_subs", []):
+                    if strip_share(path)[0] is not None:
+                        continue
+                    if any(pp == path and at >= since for (pp, at) in getattr(l, "unsubbed", [])):
+                        continue
+                    if not (w.log_bytes[path] < w.cfg["segcount"] * w.cfg["segsize"]):
+                        w.skips["completeness-skipped-retention"] += 1
+                        continue
+                    miss = [x for x in expected_for(w, l, path, qos, since, None) if x not in got_any]
+                    if miss:
+                        w.viol(l.at, "C01", "idle broker: link %d (%r, persistent/resumed) is missing %r accepted after its subscription %r took effect" % (l.k, l.name, miss[0], path))
+                        break
+                w.stats["c01_lower_bound_persistent_links"] += 1
             continue
         # ---- exactness per message (C01): count = number of matching non-shared subscription spans
-        has_shared = any(strip_share(p)[0] is not None for p in spans)
         counts = defaultdict(int)
         for f in live:
             if f["payload"] != b"" and f["topic_resolved"] is not None:
